@@ -60,6 +60,7 @@ def run(ck, F):
     for f in sorted(fns, key=lambda f: f['id']):
         tables.update(K.factory(f))
     K.finish_cover()
+    K.finish_partial(())
     for r in (K.R_diag, K.R_cover, K.R_lex):
         ck.rules[r]['floor'] = 13
     ck.rules[K.R_atom]['floor'] = 2
